@@ -11,14 +11,23 @@ TRUST = ("z3 5.1.0 (thorough tier cross-checks every decided query with cvc5 1.4
 
 CHECKS = {
     "C04": dict(
-        text="PARTIAL (NLO closed-form clause only): the NLO kernels, reached through the light.{f2,fl,f3,g1}_{nc,cc} channel classes, "
+        text="(1) NLO closed forms: the NLO kernels, reached through the light.{f2,fl,f3,g1}_{nc,cc} channel classes, "
              "run on a symbolic z (branches inside kernels forked) and z3 proves, as an exact identity in (z, ln z, ln(1-z)), equality "
              "of regular parts, plus-distribution coefficients and (to 1e-12) delta coefficients with the published MS-bar closed forms "
-             "for quark and gluon, nf 3..6. NOT claimed: Adler/GLS/Bjorken first moments and Mellin moments (definite integrals have no "
-             "SMT encoding within reach; a CAS would make the CAS, not the solver, the decider).",
+             "for quark and gluon, nf 3..6. (2) First moments: the regular part of every non-singlet kernel entering the Adler "
+             "(F2 CC odd), GLS (F3 NC/CC odd incl. the fl02 class) and Bjorken (g1) sum rules at NLO, NNLO, N3LO is executed on a formal z, "
+             "which yields its exact expansion sum c(nf) z^a ln^b z ln^c(1-z) (1-z)^-d; integrated term by term (35-digit table of the "
+             "monomial integrals) and added to the local part at x=0 the moment is a polynomial in nf, and z3 proves |moment - series "
+             "coefficient| <= tau for EVERY real nf in [3,6] (tau = 1e-9 NLO; 0.03 NNLO and 0.25 N3LO = accuracy of the published "
+             "parametrisations). NOT claimed: Mellin moments other than N=1.",
         note=TRUST + "; oracle written from Bardeen et al./Furmanski-Petronzio (F2, FL, F3) and Zijlstra-van Neerven/de Florian-Sassot "
-             "(g1) in the a_s = alpha_s/4pi normalisation; zeta2 as a 30-digit rational.",
-        technique="symbolic execution of the NLO kernels (z3 proxies, path exploration) + z3 NRA identity with published closed forms",
+             "(g1) in the a_s = alpha_s/4pi normalisation; zeta2 as a 30-digit rational; series coefficients from Gorishny-Larin 1986 and "
+             "Larin-Vermaseren 1991. In (2) the z-integration is NOT done by the solver: it is the linear functional of the formal expansion "
+             "with a constants table (mpmath quadrature validated against 45 closed-form identities on every run); the expansion is "
+             "validated against the float kernel at 3 points per kernel; the solver decides the remaining for-all-nf statement. A change "
+             "that moves a moment by less than tau is not seen.",
+        technique="symbolic execution of the kernels (z3 proxies with path exploration; formal-expansion proxies for the moments) + z3 NRA "
+                  "identity with published closed forms / for-all-nf bound on the first moments",
         design="§4 C04",
     ),
     "C16": dict(
